@@ -11,7 +11,7 @@ KNOWN = os.path.join(VERIF, "known_findings.json")
 
 
 # ------------------------------------------------------------------------------------------------ pools
-def build_pools(ck, tier, rnd, langs=gen.LANGS):
+def build_pools(ck, tier, rnd, langs=gen.LANGS, tag="x"):
     """titles per language and their public tokenisation (obtained from the real tokeniser)"""
     ncorp = 250 if tier == "quick" else 3285
     corp = [r[1] for r in (rnd.sample(gen.CORPUS, ncorp) if ncorp < len(gen.CORPUS) else gen.CORPUS)]
@@ -32,24 +32,26 @@ def build_pools(ck, tier, rnd, langs=gen.LANGS):
         pairs += [(lang, t) for t in sorted(set(ts))]
         pairs += [(lang, t) for t in gen.ADVERSARIAL]
         # single words as titles (exact-prefix clause)
-    d = os.path.join(OUT, "work", "pre")
+    d = os.path.join(OUT, "work", "pre_%s_%d" % (tag, os.getpid()))       # private to this run: checks may run side by side
     os.makedirs(d, exist_ok=True)
     write_script(os.path.join(d, "tok.script"), gen.tok_script(pairs))
     r = replay(ck, os.path.join(d, "tok.script"), os.path.join(d, "tok.trace"))
     if r:
         raise ToolError("tokeniser pre-pass did not finish: %s" % r)
     toks = gen.toks_from_trace(read_ndjson(os.path.join(d, "tok.trace")))
+    shutil.rmtree(d, ignore_errors=True)
     return pools, toks
 
 
 def more_toks(ck, toks, pairs, tag="pre2"):
-    d = os.path.join(OUT, "work", tag)
+    d = os.path.join(OUT, "work", "%s_%d" % (tag, os.getpid()))
     os.makedirs(d, exist_ok=True)
     write_script(os.path.join(d, "tok.script"), gen.tok_script(pairs))
     r = replay(ck, os.path.join(d, "tok.script"), os.path.join(d, "tok.trace"))
     if r:
         raise ToolError("tokeniser pre-pass did not finish: %s" % r)
     toks.update(gen.toks_from_trace(read_ndjson(os.path.join(d, "tok.trace"))))
+    shutil.rmtree(d, ignore_errors=True)
 
 
 # ------------------------------------------------------------------------------------------------ replay + TV
